@@ -78,6 +78,7 @@ def shards(tier):
     out.append({'kind': 'special', 'tier': tier})
     for first in range(len(HDR_OPS)):
         out.append({'kind': 'hdr', 'tier': tier, 'first': first, 'depth': 5 if tier == 'thorough' else 4})
+    out.append({'kind': 'aux', 'tier': tier})
     for first in range(len(ARG_OPS)):
         out.append({'kind': 'args', 'tier': tier, 'first': first, 'depth': 4 if tier == 'thorough' else 3})
     return out
@@ -99,6 +100,60 @@ def _hdr_fn(ctx, n):
     if isinstance(h, (list, tuple)):
         h = h[0] if h else None
     return 'no-header' if h is None else '%s/%s/%s' % (h.hx, h.s, n)
+
+
+def run_aux(shard, res, only=None):
+    """a primary method with auxiliary methods of the same name (one before, one after the primary service in the service
+    list): every combination of {succeeds, raises a Fault, raises another exception} for primary and auxiliaries"""
+    import itertools
+    from spyne.server.null import NullServer
+    from spyne.model.fault import Fault
+    prog = {'tns': TNS, 'classes': [], 'services': [
+        {'n': 'A0', 'aux': True, 'methods': [{'n': 'ax', 'key': 'A0.ax', 'args': [['n', I]], 'ret': U}]},
+        {'n': 'S', 'methods': [{'n': 'ax', 'key': 'S.ax', 'args': [['n', I]], 'ret': U}]},
+        {'n': 'A1', 'aux': True, 'methods': [{'n': 'ax', 'key': 'A1.ax', 'args': [['n', I]], 'ret': U}]}]}
+    q = Quad(prog)
+    b = q.b
+    res['cov']['programs'] += 1
+    proto, h = [(p, x) for p, x in q.wires if p == 'soap11'][0]
+    m = b.methods['S.ax']
+    BEH = {'ok': lambda who: ('ret', 'from-' + who), 'fault': lambda who: ('raise', lambda: Fault('Server.' + who.replace('.', ''), 'down')),
+           'crash': lambda who: ('raise', lambda: KeyError(who))}
+    null = NullServer(q.napp, ostr=False)
+    for combo in itertools.product(sorted(BEH), repeat=3):
+        key = ['aux', list(combo)]
+        if only is not None and only != key:
+            continue
+        scripts = {k: BEH[c](k) for k, c in zip(('A0.ax', 'S.ax', 'A1.ax'), combo)}
+        res['evaluations'] += 1
+        b.rec.reset()
+        b.rec.script.update(scripts)
+        o = h.call_raw('S.ax', xsdcodec.build_request(h.codec, m, [1], proto), script=scripts['S.ax'])
+        b.rec.script.update(scripts)
+        wire_ran = sorted(c[0] for c in b.rec.calls)
+        if o.fault is not None:
+            wire = ('fault', str(o.fault.faultcode))
+        else:
+            wire = ('ok', xsdcodec.parse_response(h.codec, m, o.out, proto)[1])
+        b.rec.reset()
+        b.rec.script.update(scripts)
+        try:
+            got = ('ok', null.service.ax(1))
+        except Fault as f:
+            got = ('fault', str(f.faultcode))
+        except Exception as e:
+            got = ('raised', repr(e))
+        null_ran = sorted(c[0] for c in b.rec.calls)
+        # (which auxiliary functions run when the primary one fails differs between NullServer and the wire on the pinned
+        # tree; the property speaks of the result only, so only the result is compared)
+        if got != wire:
+            res['violations'].append({'sig': 'C18|auxiliary|primary-%s|%s' % (combo[1], 'result' if got != wire else 'functions-run'),
+                                      'what': 'auxiliary before / primary / auxiliary after = %s: NullServer gives %r (ran %s), the wire gives %r (ran %s)' % (
+                                          list(combo), got, null_ran, wire, wire_ran),
+                                      'case': {'shard': shard, 'only': key}, 'count': 1})
+        else:
+            res['nontrivial'] += 1
+    res['cov']['auxiliary_combinations'] = res['evaluations']
 
 
 # argument histories on ONE NullServer: full, partial, keyword and faulting calls of one method in every order
@@ -431,6 +486,8 @@ def run_shard(shard, only=None):
         run_hdr(shard, res, only)
     elif shard['kind'] == 'args':
         run_args(shard, res, only)
+    elif shard['kind'] == 'aux':
+        run_aux(shard, res, only)
     else:
         from spyne.model.fault import Fault
         from spyne import Ignored
